@@ -451,7 +451,11 @@ func (e *Engine) loopMods(c *FuncCtx, n ast.Node) ([]*types.Var, *modset) {
 				var v *types.Var
 				if isId {
 					if ce, ok := hdr[base.Name]; ok {
-						if id, ok := ast.Unparen(ce).(*ast.Ident); ok {
+						ce = ast.Unparen(ce)
+						if u, ok := ce.(*ast.UnaryExpr); ok && u.Op == token.AND {
+							ce = ast.Unparen(u.X) // &local: the cell of that address-taken local
+						}
+						if id, ok := ce.(*ast.Ident); ok {
 							v, _ = e.info.Uses[id].(*types.Var)
 						}
 					}
